@@ -395,7 +395,17 @@ pub fn run_history(prefix: &'static str, case: &Case, ctx: &mut Ctx) -> R {
                     (a, b) => format!("mask availability live={} model={}", a.is_some(), b.is_some()),
                 }
             };
-            let k = if had_rollback { "state-differs-from-fresh-replay-after-rollback" } else { "state-differs-from-fresh-replay" };
+            // known finding: a lexeme with `stop=""` and `max_tokens=`: a mask query before a commit changes whether EOS
+            // is allowed afterwards (the only differing bit is an EOS token)
+            let gt = case.g.text();
+            let eos_only_under_max_tokens = gt.contains("max_tokens=") && gt.contains("stop=\"\"") && what.starts_with("mask: ") && what.matches("token ").count() == 1 && what.contains("eos");
+            let k = if eos_only_under_max_tokens {
+                "eos-bit-differs-after-mask-query-under-max-tokens-with-empty-stop"
+            } else if had_rollback {
+                "state-differs-from-fresh-replay-after-rollback"
+            } else {
+                "state-differs-from-fresh-replay"
+            };
             return ctx.fail(&key!(k), || tag!(&what));
         }
         if live.mask.is_none() && !live.stopped {
